@@ -96,7 +96,7 @@ def call_src(c, efuns):
         if f == "FOREACH":
             return pre, "r = 0; foreach (x1 in x0) { r++; if (r > 10) break; }"
         if f == "SPREAD":
-            return pre, "r = cb(x0...);"
+            return pre, "r = vcb(x0...);"
         return pre, "r = (%s);" % (f % "x0")
     if t == "idx":
         pre = ['x0 = val("%s");' % c["a"], 'x1 = val("%s");' % c["b"]]
@@ -224,7 +224,7 @@ def run(tier, work):
             nret["error" if uncaught else "value"] += 1
             last = None
         ncalls = sum(1 for p in out if p["e"] == "Call")
-        compiled = ncalls > 0 or any(ev.get("e") == "CallRet" for ev in ex["events"])
+        compiled = ncalls > 0 or any(ev.get("e") == "CallRet" and ev.get("fn") == "run" for ev in ex["events"])
         out.append({"e": "Alive", "clean": not sigs and compiled and ncalls == len(cs)})
         if sigs or not compiled or ncalls != len(cs):
             failing.append((ex, g, fn, cs, last, sigs, compiled))
